@@ -35,6 +35,8 @@ TimerId  == 50           \* the Timer task
 NoTO     == 999          \* "no timeout"
 CycleMax == 2            \* CYCLE_MAXIMUM
 Locks == 1..NLocks
+LoTasks == {}            \* user tasks created with priority < 1 (the priority configs override this definition)
+MaxSkip == 2             \* bound on the consecutive "send it to the back" decisions of one cycle()
 
 VARIABLES prog,      \* [Tasks -> program]
           pc,        \* [Tasks -> next step index]
@@ -112,7 +114,7 @@ Setup(p) ==
   /\ ready' = [i \in 1..NT |-> i]
   /\ Sig(TRUE, FALSE)
   /\ UNCHANGED <<pc, subpc, hub, incoming, now, fdReady, res, hasQuit, owner, waiting, timer, sendscr>>
-  /\ Log("Setup", [p |-> p], <<>>)
+  /\ Log("Setup", [p |-> p, lo |-> SetToSeq(LoTasks)], <<>>)
 
 ----------------------------------------------------------------------------
 (* Cycle, user task.  Lock operations that succeed "reclaim the running     *)
@@ -139,8 +141,8 @@ RunLocks(t, ms) ==
                        : w \in lg.waiting[o.lk]}
     ELSE {[lg EXCEPT !.fin = "op"]}
 
-ReadyAfter(t, ms) ==
-  LET rest == Tail(ready) \o ms.woken IN
+ReadyAfter(t, ms, rq) ==
+  LET rest == Tail(rq) \o ms.woken IN
   IF ms.fin = "op" /\ prog[t][ms.pc].op = "Resched" THEN Append(rest, t)
   ELSE IF ms.fin = "op" /\ prog[t][ms.pc].op = "Call" THEN <<SubId(t)>> \o rest
   ELSE rest
@@ -151,16 +153,16 @@ IsW(f) == f \in {"w1", "w2", "w3", "wa"}      \* "wa": write side of the shared 
 
 \* a Send whose socket took only part of the data (or nothing): the return function registers the
 \* task for writability again and aborts the resume - the task's generator is NOT resumed
-SendRetry(t) ==
-  /\ ready' = Tail(ready)
+SendRetry(t, rq, k) ==
+  /\ ready' = Tail(rq)
   /\ incoming' = Register(t, NoTO, WFd(t))
   /\ sendscr' = [sendscr EXCEPT ![t] = Tail(@)]
   /\ res' = [res EXCEPT ![t] = "none"]
   /\ Sig(FALSE, TRUE)
   /\ UNCHANGED <<prog, pc, alive, subpc, hub, now, fdReady, hasQuit, owner, waiting, timer, setup>>
-  /\ Log("Cycle", [t |-> t], <<>>)
+  /\ Log("Cycle", [t |-> t, k |-> k], <<>>)
 
-UserRun(t) ==
+UserRun(t, rq, k) ==
   LET prev == IF pc[t] > 1 /\ pc[t] - 1 <= Len(prog[t]) THEN prog[t][pc[t] - 1]
               ELSE [op |-> "-", fd |-> "-"]
       midSend == sendscr[t] # <<>>
@@ -174,7 +176,7 @@ UserRun(t) ==
                          waiting |-> waiting, woken |-> <<>>, fin |-> "-"])
   IN
   \E ms \in MS :
-    LET rest == Tail(ready) \o ms.woken
+    LET rest == Tail(rq) \o ms.woken
         wk == Range(ms.woken)
         res1 == [x \in Ids |-> IF x \in wk THEN "true" ELSE IF x = t THEN "none" ELSE res[x]]
         didw == ms.woken # <<>>
@@ -225,16 +227,16 @@ UserRun(t) ==
                   /\ ready' = <<SubId(t)>> \o rest
                   /\ res' = [res1 EXCEPT ![SubId(t)] = "none"] /\ Sig(TRUE, FALSE)
                   /\ UNCHANGED <<alive, incoming, hasQuit>>
-    /\ LogA("Cycle", [t |-> t], ms.ran,
+    /\ LogA("Cycle", [t |-> t, k |-> k], ms.ran,
             IF Cardinality(MS) <= 1 THEN {}
-            ELSE {[ready |-> ReadyAfter(t, m), reg |-> RegOf(hub)] : m \in MS})
+            ELSE {[ready |-> ReadyAfter(t, m, rq), reg |-> RegOf(hub)] : m \in MS})
 
-UserStep(t) ==
-  IF sendscr[t] # <<>> /\ Head(sendscr[t]).op \in {"P", "B"} THEN SendRetry(t) ELSE UserRun(t)
+UserStep(t, rq, k) ==
+  IF sendscr[t] # <<>> /\ Head(sendscr[t]).op \in {"P", "B"} THEN SendRetry(t, rq, k) ELSE UserRun(t, rq, k)
 
 \* Cycle, AgainTask of t: runs the sub-function; its blocking operations pass through;
 \* at its end the caller is made the next task to run and receives the value / exception
-SubStep(t) ==
+SubStep(t, rq, k) ==
   LET o == prog[t][pc[t] - 1]      \* the Call op that started it
       j == subpc[t]
       id == SubId(t)
@@ -243,45 +245,45 @@ SubStep(t) ==
   /\ IF j <= Len(o.sub) /\ o.sub[j].op = "Call2" THEN
        \* the sub-function calls a sub-function of its own: that one runs next, this one blocks
        /\ subpc' = [subpc EXCEPT ![t] = j + 1]
-       /\ ready' = <<Sub2Id(t)>> \o Tail(ready)
+       /\ ready' = <<Sub2Id(t)>> \o Tail(rq)
        /\ res' = [res EXCEPT ![id] = "none", ![Sub2Id(t)] = "none"]
        /\ Sig(TRUE, FALSE)
        /\ UNCHANGED incoming
      ELSE IF j <= Len(o.sub) THEN
        /\ subpc' = [subpc EXCEPT ![t] = j + 1]
-       /\ ready' = Tail(ready)
+       /\ ready' = Tail(rq)
        /\ incoming' = Register(id, now + o.sub[j].d, "-")
        /\ res' = [res EXCEPT ![id] = "none"]
        /\ Sig(FALSE, TRUE)
      ELSE
        /\ subpc' = [subpc EXCEPT ![t] = 0]
-       /\ ready' = <<t>> \o Tail(ready)
+       /\ ready' = <<t>> \o Tail(rq)
        /\ res' = [res EXCEPT ![t] = CASE o.v = "end" -> "none" [] o.v = "ret" -> "ret" [] o.v = "throw" -> "exc",
                              ![id] = "none"]
        /\ Sig(TRUE, FALSE)
        /\ UNCHANGED incoming
-  /\ Log("Cycle", [t |-> id], ran)
+  /\ Log("Cycle", [t |-> id, k |-> k], ran)
 
 \* Cycle, AgainTask of the nested sub-function (no blocking operations of its own): its result or exception
 \* reaches exactly its caller, t's sub-function, which runs next; t itself stays blocked
-Sub2Step(t) ==
+Sub2Step(t, rq, k) ==
   LET o == prog[t][pc[t] - 1]
       so == o.sub[subpc[t] - 1]     \* the Call2 op that started it
       id2 == Sub2Id(t) IN
   /\ UNCHANGED <<prog, pc, alive, subpc, now, fdReady, hasQuit, owner, waiting, timer, setup, hub, sendscr, incoming>>
-  /\ ready' = <<SubId(t)>> \o Tail(ready)
+  /\ ready' = <<SubId(t)>> \o Tail(rq)
   /\ res' = [res EXCEPT ![SubId(t)] = CASE so.v = "end" -> "none" [] so.v = "ret" -> "ret" [] so.v = "throw" -> "exc",
                         ![id2] = "none"]
   /\ Sig(TRUE, FALSE)
-  /\ Log("Cycle", [t |-> id2], <<<<id2, 1, res[id2]>>>>)
+  /\ Log("Cycle", [t |-> id2, k |-> k], <<<<id2, 1, res[id2]>>>>)
 
 \* Cycle, ScheduleTask: queue x as the next task unless it is already queued
-STStep(x) ==
-  /\ ready' = IF InReady(x) THEN Tail(ready) ELSE <<x>> \o Tail(ready)
+STStep(x, rq, k) ==
+  /\ ready' = IF InReady(x) THEN Tail(rq) ELSE <<x>> \o Tail(rq)
   /\ Sig(~InReady(x), FALSE)
   /\ UNCHANGED <<prog, pc, alive, subpc, hub, incoming, now, fdReady, res, hasQuit,
                  owner, waiting, timer, setup, sendscr>>
-  /\ Log("Cycle", [t |-> Head(ready)], <<>>)
+  /\ Log("Cycle", [t |-> Head(rq), k |-> k], <<>>)
 
 \* Cycle, Timer task
 TimerArm(next, fires, rest) ==     \* yield Sleep(next, absolute)
@@ -295,8 +297,8 @@ TimerArm(next, fires, rest) ==     \* yield Sleep(next, absolute)
 TimerFinish(fires, rest) ==
   /\ ready' = rest /\ timer' = [timer EXCEPT !.st = "finished", !.fires = fires]
   /\ Sig(FALSE, FALSE) /\ UNCHANGED incoming
-TimerStep ==
-  LET rest == Tail(ready) IN
+TimerStep(rq, k) ==
+  LET rest == Tail(rq) IN
   /\ UNCHANGED <<prog, pc, alive, subpc, hub, now, fdReady, hasQuit, owner, waiting, setup, sendscr>>
   /\ res' = [res EXCEPT ![TimerId] = "none"]
   /\ CASE timer.st = "init" ->
@@ -308,26 +310,39 @@ TimerStep ==
                      stopNow == timer.cfg.stop # 0 /\ Len(f) >= timer.cfg.stop IN
                  IF stopNow \/ ~timer.cfg.rec THEN TimerFinish(f, rest)
                  ELSE TimerArm(now + timer.cfg.d, f, rest)
-  /\ Log("Cycle", [t |-> TimerId], <<>>)
+  /\ Log("Cycle", [t |-> TimerId, k |-> k], <<>>)
 
 \* a stale wake-up can queue a task whose generator already finished: resuming it
 \* raises StopIteration at once and it is dropped without running anything
-DropDead(x) ==
-  /\ ready' = Tail(ready) /\ Sig(FALSE, FALSE)
+DropDead(x, rq, k) ==
+  /\ ready' = Tail(rq) /\ Sig(FALSE, FALSE)
   /\ UNCHANGED <<prog, pc, alive, subpc, hub, incoming, now, fdReady, res, hasQuit,
                  owner, waiting, timer, setup, sendscr>>
-  /\ Log("Cycle", [t |-> x], <<>>)
+  /\ Log("Cycle", [t |-> x, k |-> k], <<>>)
+
+\* Scheduler.cycle() chooses the task to resume ("priority system"): a task created with priority < 1
+\* that is at the head of the deque while other tasks are ready is put back at the tail when the
+\* scheduler's random draw exceeds its priority, and the next one is looked at.  The draws are an
+\* input of the environment: k = number of consecutive tasks sent to the back before one is resumed.
+\* A task with the default priority, or the only ready task, is resumed without a draw.
+Rot(s, k) == [i \in 1..Len(s) |-> s[((i - 1 + k) % Len(s)) + 1]]
+\* the AgainTask of a sub-function runs with its caller's priority (Again.execute copies it)
+IsLo(x) == x \in LoTasks \/ (x > 100 /\ x < 200 /\ (x - 100) \in LoTasks) \/ (x > 400 /\ (x - 400) \in LoTasks)
+SkipOK(k) == k = 0 \/ (Len(ready) > 1 /\ \A i \in 0..(k - 1) : IsLo(Rot(ready, i)[1]))
+
+CycleAt(rq, k) ==
+  LET x == Head(rq) IN
+       IF x \in Tasks /\ x \notin alive THEN DropDead(x, rq, k)
+       ELSE IF x \in Tasks THEN UserStep(x, rq, k)
+       ELSE IF x = TimerId THEN TimerStep(rq, k)
+       ELSE IF x >= 400 THEN Sub2Step(x - 400, rq, k)
+       ELSE IF x >= 300 THEN STStep(x - 300, rq, k)
+       ELSE IF x >= 200 THEN STStep(x - 200, rq, k)
+       ELSE SubStep(x - 100, rq, k)
 
 Cycle ==
   /\ setup /\ ready # <<>>
-  /\ LET x == Head(ready) IN
-       IF x \in Tasks /\ x \notin alive THEN DropDead(x)
-       ELSE IF x \in Tasks THEN UserStep(x)
-       ELSE IF x = TimerId THEN TimerStep
-       ELSE IF x >= 400 THEN Sub2Step(x - 400)
-       ELSE IF x >= 300 THEN STStep(x - 300)
-       ELSE IF x >= 200 THEN STStep(x - 200)
-       ELSE SubStep(x - 100)
+  /\ \E k \in 0..(IF LoTasks = {} THEN 0 ELSE MaxSkip) : SkipOK(k) /\ CycleAt(Rot(ready, k), k)
 
 ----------------------------------------------------------------------------
 (* One pass of SelectHub._select                                             *)
